@@ -490,13 +490,36 @@ CONTROLS = [control_handmade, control_borrowed_str]
 
 
 
+def r12_derived_writers_mirror_their_readers(ctx):
+    """the wire types whose Serialize is derived are read back by the derived Deserialize of the same declaration, and the
+    two mirror each other only as long as the declaration has no one-sided attribute. Decided on the expanded code: a
+    derived Serialize in jsonrpsee_types (a) serialises every member through the member type's own Serialize impl - no
+    `serialize_with` wrapper (a number written as a string comes back as another variant), and (b) leaves a member out
+    only under `Option::is_none` - the derived reader supplies None for a missing Option member and fails with `missing
+    field` for any other (skip_serializing_if = "str::is_empty" on a required member makes the value unreadable)."""
+    F, R = ctx.F, ctx.R
+    n = 0
+    ALLOWED = r"_serde::(ser::)?(Serializer|SerializeStruct|SerializeMap|SerializeSeq|SerializeTuple|SerializeStructVariant|SerializeTupleVariant|SerializeTupleStruct)::\w+$|_serde::(ser::impls::<impl .*)?Serialize.*::serialize$|Serialize>?::serialize$|Try>?::branch$|FromResidual.*::from_residual$|^std::option::Option::<.*>::is_none$|__private\w*::"
+    for b in F.real_bodies():
+        if not (re.search(r"^jsonrpsee_types::[\w:]+::_::<impl .*_serde::Serialize for jsonrpsee_types::", b.path) and b.path.endswith("::serialize")):
+            continue
+        n += 1
+        R.fn(b)
+        ty = re.search(r"Serialize for (jsonrpsee_types::[\w:]+)", b.path).group(1)
+        wrappers = [p_ for p_ in F.bodies if p_.startswith(b.path + "::") and "__SerializeWith" in p_] + [p_ for p_ in F.bodies if "__SerializeWith" in p_ and b.path in p_]
+        R.check(not wrappers, "C15.R12", "%s:no-serialize_with" % ty.split("::")[-1], "derived Serialize for %s writes every member through its own Serialize impl" % ty.split("::")[-1], "derived Serialize for %s routes a member through a `serialize_with` function: what is written is not what the derived Deserialize of the same type reads back (e.g. a number written as a string returns as the string variant), so the value does not round-trip" % ty, "%s:%d" % (b.file, b.lo))
+        odd = [c for c in b.calls if not re.search(ALLOWED, c.name() or "") and not re.search(ALLOWED, c.callee or "")]
+        R.check(not odd, "C15.R12", "%s:skip-only-on-none" % ty.split("::")[-1], "derived Serialize for %s omits a member only when it is None" % ty.split("::")[-1], "derived Serialize for %s consults %s: a member is left out / rewritten by a one-sided predicate, while the derived reader accepts a missing member only for Option fields - the serialised value cannot be parsed back (`missing field`)" % (ty, sorted({short(c.name()) for c in odd})), where(odd[0]) if odd else None)
+    R.floor("C15.R12", n, 6, "derived Serialize impls of wire types")
+
+
 def rids_wire_ids_derive_both(ctx):
     """ids are serialised and parsed by mirror-image (derived) impls"""
     from .common import wire_ids_derive_both
     wire_ids_derive_both(ctx, "C15.IDS")
 
 
-RULES = [r1_code_tables, r2_serializer, r3_field_tables, r4_duplicate_guards, r5_acceptance_table, r6_no_handmade_json, r7_no_borrowed_str, r8_into_owned_is_fieldwise, r9_client_tries_response_first, r10_http_errors_keep_the_envelope, r11_subscription_id_numbers_are_u64, rids_wire_ids_derive_both]
+RULES = [r1_code_tables, r2_serializer, r3_field_tables, r4_duplicate_guards, r5_acceptance_table, r6_no_handmade_json, r7_no_borrowed_str, r8_into_owned_is_fieldwise, r9_client_tries_response_first, r10_http_errors_keep_the_envelope, r11_subscription_id_numbers_are_u64, r12_derived_writers_mirror_their_readers, rids_wire_ids_derive_both]
 
 LEVEL_TEXT = (
     "Decision tables and structural facts extracted exactly from the type-checked serde code: the error-code tables are "
